@@ -382,3 +382,78 @@ Definition w_merge (w : whist) : res whist :=
   | Panic => Panic
   | Diverge => Diverge
   end.
+
+(* ------------------------------------------------------------------ several live histograms
+   Histograms and snapshots are values: Export copies the counts, Import/New/Merge produce or update
+   one entry of the store and nothing else.  (Import adopts the snapshot's slice in the Go code; the
+   driver honours "the caller must stop accessing" the snapshot after Import, so that sharing is
+   unobservable; every other sharing between entries would be a defect of the implementation.) *)
+Record mstore : Type := mkMS { ms_h : list hist; ms_s : list snapshot }.
+
+Inductive mop : Type :=
+| MNew                          (* append New(lo, hi, sig) *)
+| MRecord (i : nat) (v n : Z)   (* h[i].RecordValues(v, n)        -> [ok] *)
+| MReset (i : nat)              (* h[i].Reset() *)
+| MExport (i : nat)             (* append h[i].Export() to the snapshots *)
+| MImport (k : nat)             (* append Import(snapshot k) to the histograms *)
+| MScribble (k : nat) (j d : Z) (* snapshot k: Counts[j] += d (the caller's own copy) *)
+| MMerge (i j : nat).           (* h[i].Merge(h[j])               -> [dropped] *)
+
+Definition scribble (s : snapshot) (j d : Z) : snapshot :=
+  mkSnap (s_lo s) (s_hi s) (s_sig s) (s_len s) (upd (s_counts s) j (wrap64 (s_counts s j + d))).
+
+Definition mstep (lo hi sig : Z) (st : mstore) (o : mop) : res (mstore * list Z) :=
+  match o with
+  | MNew => match new_hist lo hi sig with
+            | Ok h => Ok (mkMS (ms_h st ++ [h]) (ms_s st), [])
+            | Panic => Panic
+            | Diverge => Diverge
+            end
+  | MRecord i v n =>
+      match nth_error (ms_h st) i with
+      | Some h => let '(h', ok) := record_values h v n in
+                  Ok (mkMS (set_nth (ms_h st) i h') (ms_s st), [if ok then 1 else 0])
+      | None => Ok (st, [])
+      end
+  | MReset i =>
+      match nth_error (ms_h st) i with
+      | Some h => Ok (mkMS (set_nth (ms_h st) i (reset h)) (ms_s st), [])
+      | None => Ok (st, [])
+      end
+  | MExport i =>
+      match nth_error (ms_h st) i with
+      | Some h => Ok (mkMS (ms_h st) (ms_s st ++ [export h]), [])
+      | None => Ok (st, [])
+      end
+  | MImport k =>
+      match nth_error (ms_s st) k with
+      | Some s => match import s with
+                  | Ok h => Ok (mkMS (ms_h st ++ [h]) (ms_s st), [])
+                  | Panic => Panic
+                  | Diverge => Diverge
+                  end
+      | None => Ok (st, [])
+      end
+  | MScribble k j d =>
+      match nth_error (ms_s st) k with
+      | Some s => Ok (mkMS (ms_h st) (set_nth (ms_s st) k (scribble s j d)), [])
+      | None => Ok (st, [])
+      end
+  | MMerge i j =>
+      match nth_error (ms_h st) i, nth_error (ms_h st) j with
+      | Some t, Some from =>
+          match merge t from with
+          | Ok (t', d) => Ok (mkMS (set_nth (ms_h st) i t') (ms_s st), [d])
+          | Panic => Panic
+          | Diverge => Diverge
+          end
+      | _, _ => Ok (st, [])
+      end
+  end.
+
+(* the histogram entry an operation may change (appending is not a change of an existing entry) *)
+Definition mop_target (o : mop) : option nat :=
+  match o with
+  | MRecord i _ _ | MReset i | MMerge i _ => Some i
+  | _ => None
+  end.
